@@ -32,6 +32,7 @@ func init() {
 
 func runC22(c *Ctx) {
 	w := c.W
+	nameFillRule(c)
 	to := w.Fn(fnToRDN)
 	if to == nil {
 		c.Undecided("R-TABLE", fnToRDN, "anchor", "-", "not found")
